@@ -2,24 +2,27 @@
 //
 // An instrumented allocator (alloc.go) is installed as mempool.DefaultMemPool and as Config.BodyAllocator and the REAL
 // code is driven through
-//   (a) HTTP server exchanges: Parser + ServerProcessor + Response + BodyReader behind a scripted net.Conn (http.go),
-//   (b) WebSocket connections, both roles, direct and send-queue write modes (ws.go),
-//   (c) the write queue of nbio.Conn on a real engine over loopback TCP (nbconn.go).
+//
+//	(a) HTTP server exchanges: Parser + ServerProcessor + Response + BodyReader behind a scripted net.Conn (http.go),
+//	(b) WebSocket connections, both roles, direct and send-queue write modes (ws.go),
+//	(c) the write queue of nbio.Conn on a real engine over loopback TCP (nbconn.go).
+//
 // For every run
-//   part M  the recorded event trace goes to the extracted, verified checker (coq/bufown: check_trace); its verdict
-//           must equal the verdict of the allocator's live map; for the response scenario the whole trace, the
-//           conn.Write boundaries and the Write results must equal those of the instrumented model RespAlloc.v;
-//           random event traces (with violations) are checked by both checkers as well;
-//   part O  property oracles on the implementation alone: double-free-<site>, use-after-free-<site>,
-//           append-after-free-<site>, foreign-free-<site>, write-after-free-<site> (poison broken),
-//           poison-on-wire / garbage-on-wire / poison-in-message / poison-in-request-body (stale reads).
+//
+//	part M  the recorded event trace goes to the extracted, verified checker (coq/bufown: check_trace); its verdict
+//	        must equal the verdict of the allocator's live map; for the response scenario the whole trace, the
+//	        conn.Write boundaries and the Write results must equal those of the instrumented model RespAlloc.v;
+//	        random event traces (with violations) are checked by both checkers as well;
+//	part O  property oracles on the implementation alone: double-free-<site>, use-after-free-<site>,
+//	        append-after-free-<site>, foreign-free-<site>, write-after-free-<site> (poison broken),
+//	        poison-on-wire / garbage-on-wire / poison-in-message / poison-in-request-body (stale reads).
 package main
 
 import (
 	"flag"
 	"fmt"
 	"math/rand"
-	"sort"
+	"runtime/debug"
 	"strings"
 
 	"github.com/lesismal/nbio/logging"
@@ -56,6 +59,11 @@ func (h *H) finish(al *Alloc, scenario string, replay interface{}) {
 	h.rep.StatN(scenario+".events.use", u)
 	for k, v := range al.LiveSites() {
 		h.rep.StatN("live-at-end:"+k, v)
+	}
+	for _, e := range al.Events() {
+		if e.kind == 'm' || e.kind == 'f' {
+			h.rep.Stat(fmt.Sprintf("site.%c:%s", e.kind, site(e.pcs)))
+		}
 	}
 	for _, v := range al.Violations() {
 		h.rep.Add(hx.Finding{Kind: "oracle", Property: "C11", Signature: v.class + "-" + v.site,
@@ -259,6 +267,7 @@ func main() {
 	only := flag.String("only", "", "run only one scenario: resp, conn, ws, nbconn, synth")
 	flag.Parse()
 	logging.SetLevel(logging.LevelNone)
+	debug.SetGCPercent(400) // the cases allocate (and drop) many large never-recycled buffers
 	rep := hx.NewReport("bufown", *seed)
 	rep.Rule = "resp: handler programs (headers, WriteHeader, up to 5 Writes of 0 / small / 32K / 60-66 KiB / 64 KiB +-4 / +-200 / >70 KiB, Flush anywhere, explicit / absent / late Content-Length, trailers, HTTP/1.0 and 1.1) x allocator (in place, always move) x conn.Write failing from or only at the k-th write, every run compared with the Coq model; " +
 		"conn: 1-3 pipelined requests (no body / Content-Length / chunked with trailers, bodies 0..64K+) cut into random segments or at every position, corrupted byte, close after any segment, body size and read limits, handler reads all / part / nothing, allocator in place / always move / move on growth with 0-1024 bytes slack; " +
@@ -304,10 +313,5 @@ func main() {
 			synthCase(h, r, it)
 		}
 	}
-	keys := make([]string, 0, len(rep.Stats))
-	for k := range rep.Stats {
-		keys = append(keys, k)
-	}
-	sort.Strings(keys)
 	rep.Write(*out)
 }
